@@ -141,8 +141,11 @@ def gen_eph_safety(rng, seed):
     to a synchronized source, so that the parts of one ephemeral set arrive spread out in time."""
     N = rng.randint(12, 24)
     p = Pipe()
-    p.source('src', {'nframes': N, 'proc_ms': [rng.choice([0, 20, 60])], 'topics': ['main', 'aux'] + (['x'] if rng.random() < 0.4 else []), 'content': rng.choice([['data'], ['data', 'raw_bgr']]), 'end': 'idle'})
-    p.relay('a', [{'pub': 'src', 'form': 'main'}], {'proc_ms': [rng.choice([0, 30])], 'rename': {'main': 'main_a'}})
+    p.source('src', {'nframes': N, 'proc_ms': [rng.choice([0, 20, 60, 150, 250])], 'topics': ['main', 'aux'] + (['x'] if rng.random() < 0.4 else []), 'content': rng.choice([['data'], ['data', 'raw_bgr']]), 'end': 'idle'})
+    abeh = {'proc_ms': [rng.choice([0, 30])], 'rename': {'main': 'main_a'}}
+    if rng.random() < 0.4:
+        abeh['skip'] = rng.choice([{'list': [1, 4]}, {'mod': 3, 'rem': [1]}, {'mod': 4, 'rem': [0, 1]}])     # id gaps on the synchronized source of the rejoin
+    p.relay('a', [{'pub': 'src', 'form': 'main'}], abeh)
     lvl = rng.choice([1, 1, 2])
     p.relay('e', [{'pub': 'src', 'form': rng.choice(['all', [('main', 'main'), ('aux', 'aux')]]), 'eph': lvl}], {'proc_ms': [rng.choice([0, 100, 400])], 'rename': {'main': 'main_e', 'aux': 'aux_e', 'x': 'x_e'}})
     k0in = [{'pub': 'a', 'form': 'all'}, {'pub': 'e', 'form': rng.choice(['all', [('main_e', 'main_e'), ('aux_e', 'aux_e')]]), 'eph': 1}]
@@ -155,7 +158,8 @@ def gen_eph_safety(rng, seed):
     for n in p.nodes:
         n['start_ms'] = rng.choice([0, 0, rng.randint(0, 400)])
     link = {'max_delay_ms': rng.choice([10, 50, 95]), 'conn_ms': [0, 30], 'sub_ms': [0, 20]}
-    scn = scenarios.finish(p, seed, link, 60000, family='eph-safety', stop_counts={'k0': N}, grace_ms=500, stop_when_all_done=False)
+    expect = [q for q in range(N) if not world.skip_pred(abeh, q)]
+    scn = scenarios.finish(p, seed, link, 60000, family='eph-safety', stop_counts={'k0': len(expect)}, grace_ms=500, stop_when_all_done=False, expect_k0=expect)
     if rng.random() < 0.4:
         scn['loss'] = {'p': rng.choice([0.1, 0.3]), 'links': [['src', 'e'], ['src', 'e9'], ['e', 'k0']]}
     if rng.random() < 0.3:
@@ -190,6 +194,16 @@ def judge_safety(w, scn, res):
         if mech in ('ephemeral-reorder', 'content-altered', 'duplicate', 'reorder'):
             bad.append((mech, msg))
     res.count('safety_sets_checked', r2.counters.get('sets_checked', 0))
+    if not scn.get('faults'):
+        # the synchronized half of the rejoin (src -> a -> k0, required outputs, no loss on it): every frame, in order, whatever the ephemeral half does
+        got = [ev['ins']['main_a']['seq'] for ev in w.clog if ev['ev'] == 'process' and ev['node'] == 'k0' and ev['ins'] and 'main_a' in ev['ins']]
+        res.count('sync_half_frames_compared', len(got))
+        # with a lossy ephemeral link the documented all-or-nothing rule may leave k0 waiting for the rest of a half-lost
+        # ephemeral set once the source has gone idle (tail of a finite run): then only the prefix is judged
+        want = scn['expect_k0'] if not scn.get('loss') else scn['expect_k0'][:len(got)]
+        if got != want:
+            j = next((i for i, (a_, b_) in enumerate(zip(got, scn['expect_k0'])) if a_ != b_), min(len(got), len(scn['expect_k0'])))
+            bad.append(('sync-stream-altered', f'k0 (sources a + ephemeral e): synchronized frames received {got[:j + 3]}... differ from what a published {scn["expect_k0"][:j + 3]}... at position {j} ({len(got)} vs {len(scn["expect_k0"])})'))
     n_eph_multi = sum(1 for ev in w.clog if ev['ev'] == 'process' and ev['node'] == 'k0' and ev['ins'] and sum(1 for t in ev['ins'] if t.endswith('_e')) >= 2)
     res.count('rejoin_sets_with_multi_topic_ephemeral_part', n_eph_multi)
     if n_eph_multi:
